@@ -32,7 +32,10 @@ RULE = ("seeded random parsers: 3-7 declarations (int/str/List[int]/Any argument
         "object, after the first parse, after the lists the first parse put at link targets were edited in place, and after "
         "dump / re-parse / save; the second input is the first with values of Any-typed arguments replaced by values of "
         "another kind that compare and hash equal (1 <-> True, 0 <-> False); 10 compute functions, among them the "
-        "type-sensitive `kind` (joins the type names of its arguments) and the list-returning tup / pair / cat.")
+        "type-sensitive `kind` (joins the type names of its arguments) and the list-returning tup / pair / cat. Families "
+        "`gen_chains` (well-typed int chains: target = k-th source, source = earlier target, same target twice, either "
+        "order) and `gen_whole` (a WHOLE class-typed argument as link target, d -> c, alone or with a second link whose "
+        "target or source lies inside the enclosing target c or inside its source d, either declaration order).")
 TRUSTED = [
     "Coq 8.16.1 kernel + vm_compute",
     "tie/impl/c15_links.py: observation of the real parser (wraps ActionLink.apply_parsing_links in the harness "
@@ -63,7 +66,8 @@ ASSUMPTIONS = [
     "the second spelling was used",
     "values are finite trees without sharing: link sets WITH key overlaps never hand a group/class Namespace through by "
     "reference (identity/first/tup are replaced by gsum there), because the real parser then builds shared or cyclic "
-    "Namespaces; a whole class argument is never a link target",
+    "Namespaces; a whole class argument is a link target only in the well-typed family gen_whole (source: another class "
+    "argument), a whole list-of-classes argument never",
 ]
 EXHAUSTIVE = {"quick": False, "thorough": False}
 FINDING_CLASSES = {1: "link-key-prefix-overlap", 2: "list-item-target-in-dump", 3: "skipped-link-target-stripped",
@@ -544,6 +548,7 @@ def generate(rng, tier):
             if has_list_target and family == "B":
                 cases.append(dict(case, aspect=1))
     cases += gen_chains(rng, 25 if tier == "quick" else 300)
+    cases += gen_whole(rng, 30 if tier == "quick" else 400)
     cases += gen_trees(rng, 90 if tier == "quick" else 900)
     return cases
 
@@ -586,6 +591,33 @@ def gen_chains(rng, n):
             case = dict(decls=decls, links=links, aspect=0, full=True, **x)
             case["second"] = second_input(rng, decls, x)
             cases.append(case)
+    return cases
+
+
+def gen_whole(rng, n):
+    """A WHOLE class-typed argument as link target (link_arguments("d", "c"): c := the class spec found at d), alone or
+    together with a second link whose target or source lies INSIDE the enclosing target c (a -> c.init_args.p,
+    c.init_args.p -> t) or inside its source d, in either declaration order. _initial_input_checks must refuse a target
+    that encloses, or is enclosed by, an earlier target or source whichever of the two was declared first; a source inside
+    an earlier target, and a target inside... an earlier source's class declared before, are the harmless orders."""
+    cases = []
+    for _ in range(n):
+        ints = rng.sample(["a", "b", "t", "u", "w"], 3)
+        decls = [{"key": k, "kind": "int", "default": rand_val(rng, "int"), "required": False, "alias": None} for k in ints]
+        for k in ("c", "d"):
+            dflt = spec(rng) if k == "d" or rng.random() < 0.6 else None
+            decls.insert(rng.randint(0, len(decls)), {"key": k, "kind": "class", "default": dflt, "required": False, "alias": None})
+        whole = {"src": ["d"], "tgt": "c", "fn": rng.choice([None, FN["first"]])}
+        par = rng.choice(["p", "p", "q", "r"])
+        how = rng.choice(["alone", "nested-target", "nested-target", "nested-source", "nested-source", "source-side-target", "source-side-source"])
+        other = {"nested-target": {"src": [ints[0]], "tgt": "c.init_args." + par, "fn": rng.choice([None, FN["inc"]])},
+                 "nested-source": {"src": ["c.init_args." + par], "tgt": ints[1], "fn": rng.choice([None, FN["inc"]])},
+                 "source-side-target": {"src": [ints[0]], "tgt": "d.init_args." + par, "fn": None},
+                 "source-side-source": {"src": ["d.init_args." + par], "tgt": ints[1], "fn": None}}.get(how)
+        links = [whole] if other is None else ([other, whole] if rng.random() < 0.6 else [whole, other])
+        for _ in range(4):
+            x = gen_input(rng, decls, links, "B")
+            cases.append(dict(decls=decls, links=links, aspect=0, full=False, second=None, **x))
     return cases
 
 
@@ -893,6 +925,8 @@ META = {
         "strings (new input constructor OptAlias inside the induction over argv); "
         "C15_tree_link_invariant and C15_tree_targets_absent_from_dump — one level of subcommands, links in the top "
         "parser, the subcommand parser or both, parse and dump through the top parser. "
+        "Since round 5 the link grammar of the model includes a whole class-typed argument as target (add_link no longer "
+        "answers EUnmodelled for it), so every theorem above covers such links too. "
         "Examples show each hypothesis satisfiable by a non-trivial parser/input."),
     "level_note": (
         "The theorems are about the hand-written Gallina model, which is written in the shape of _link_arguments.py (bugs "
@@ -903,7 +937,7 @@ META = {
         "class-value normalisation being C14's subject), and independently that the observation satisfies Spec/C15Spec.v. "
         "Only exercised, not proved: that dump->parse preserves the SOURCE values (C01's subject), type adaptation (identity "
         "on the tie's value space), env/argv text rendering, the collection phase of parser trees (the configuration the "
-        "top-level apply_parsing_links receives is an observed input), apply_on='instantiate' (C16), whole-class targets, "
+        "top-level apply_parsing_links receives is an observed input), apply_on='instantiate' (C16), whole list-of-classes targets, "
         "subcommands nested deeper than one level, "
         "Namespace->dict conversion by type hint, compute functions with side effects. Trusted: Coq kernel/vm_compute, the "
         "runner tie/impl/c15_links.py (hooks apply_parsing_links in the harness process to read the pre-link configuration), "
